@@ -271,3 +271,35 @@ def pick_segs(cs):
                 s = SEGS[n]
         out.append(s)
     return out
+
+
+# ---- ragged containers under 1-3 wildcards (C11 assign, C12 delete, C14) -------------------------------
+def ragged(nw, sizes, final, a):
+    """(root, leaves): nw nested list levels below root['r']; the container met at level l as the j-th child of its parent
+    has (sizes[l] + j) % 3 children, so empty, one-element and two-element containers occur side by side and a whole level
+    can be empty. Leaves (in document order) are addressed by the final segment: 0 dict key 'v', 1 list index 0, 2 attribute v."""
+    leaves = []
+
+    def leaf(i):
+        lf = [{'v': a + i, 'keep': i}, [a + i, i], Obj(v=a + i, keep=i)][final]
+        leaves.append(lf)
+        return lf
+
+    def build(level, j):
+        if level == nw:
+            return leaf(len(leaves))
+        n = (sizes[level] + j) % 3
+        return [build(level + 1, i) for i in range(n)]
+    return {'r': build(0, 0)}, leaves
+
+
+def ragged_path(nw, final, style):
+    seg = ['v', '0', 'v'][final]
+    if style == 0:
+        return 'r' + '.*' * nw + '.' + seg
+    if style == 1:
+        return Path('r', *([T.__star__()] * nw + [seg if final != 1 else 0]))
+    t = T['r']
+    for _ in range(nw):
+        t = t.__star__()
+    return [t['v'], t[0], t.v][final]
